@@ -24,6 +24,9 @@ def items(tier):
         out.append({"kind": "ci", "method": method, "sampler": "identity", "nb": 3})
         out.append({"kind": "ci", "method": method, "sampler": "dropper", "nb": 2 if method == "bca" else 3})
     out.append({"kind": "ci", "method": "quantile", "sampler": "builtin", "nb": 2})
+    for method in ("bc", "bca"):
+        out.append({"kind": "ci_twice", "method": method})
+        out.append({"kind": "ci_nan", "method": method})
     return out
 
 
@@ -176,3 +179,53 @@ def regressions(h):
         out.append(np.asarray(S.bootstrap_metric("tpr", config=sa.BootstrapConfig(nb_samples=3, smoothing=True, sampling_method="replacement"), threshold=0.5)).tolist())
         runs.append(repr(out))
     h.check("[seeded replay] identical results for a fixed global seed", runs[0] == runs[1])
+
+
+def run_ci_twice(h, method):
+    """a sequence of calls on ONE object with the same metric and kwarg names but different values: each interval is
+    built from its own replicates and its own point estimate"""
+    S, pos, neg = _S(h)
+    alpha = h.const("1/5")
+    cfg = h.sa.BootstrapConfig(nb_samples=2, sampling_method=_sampler(h, "dropper"), bootstrap_method=method)
+    for k, t in enumerate(h.reals("t", 2)):
+        seen = _spy(S) if k == 0 else seen
+        n0 = len(seen)
+        ci = S.bootstrap_ci("fnr", alpha=alpha, config=cfg, threshold=t)
+        mine = seen[n0:]
+        rows = h.np.stack([h.np.asarray(s.fnr(t)) for s in mine], axis=0)
+        want = h.sa.utils.bootstrap_ci(theta=rows, theta_hat=S.fnr(t), alpha=alpha, method=method)
+        h.check(f"call {k + 1}: interval = CI formula on this call's replicates with this call's point estimate", _same_cells(h, ci, want))
+        rm = S.bootstrap_metric("fnr", config=cfg, threshold=t)
+        h.check(f"call {k + 1}: bootstrap_metric rows follow this call's kwargs", _same_cells(h, rm[0], seen[-2].fnr(t)) and _same_cells(h, rm[1], seen[-1].fnr(t)))
+
+
+def run_ci_nan(h, method):
+    """a metric that is NaN on some bootstrap samples: the interval follows the documented formula with NaN replicates ignored"""
+    from . import C13
+
+    S, pos, neg = _S(h)
+    alpha = h.real("alpha", float_atom=False)
+    h.assume(h.And(alpha > 0, alpha < 1))
+    t = h.real("t")
+    calls = [0]
+
+    def metric(s, threshold):
+        calls[0] += 1
+        if calls[0] == 2:      # call 1 = shape probe on the original, calls 2.. = samples: the 1st sample is NaN
+            return float("nan")
+        return s.fnr(threshold)
+
+    cfg = h.sa.BootstrapConfig(nb_samples=3, sampling_method=_sampler(h, "dropper"), bootstrap_method=method)
+    seen = _spy(S)
+    ci = h.cells(S.bootstrap_ci(metric, alpha=alpha, config=cfg, threshold=t))
+    col = [float("nan"), seen[1].fnr(t), seen[2].fnr(t)]      # samples 1 and 2 drop different positives: two distinct finite replicates
+    est = S.fnr(t)
+    if any(h.is_nan(v) for v in (col[1], col[2], est)):
+        return
+    lv = C13._oracle_levels(h, method, col, est, alpha)
+    fin = [col[1], col[2]]
+    wl, wh = C13._q(h, fin, lv[0]), C13._q(h, fin, lv[1])
+    if h.is_nan(wl) or h.is_nan(wh) or h.is_nan(ci[0]) or h.is_nan(ci[1]):
+        h.check("NaN limits only where the documented formula is undefined", h.is_nan(wl) == h.is_nan(ci[0]) and h.is_nan(wh) == h.is_nan(ci[1]))
+        return
+    h.check("interval with NaN replicates = documented formula on the finite replicates", h.And(h.eq(ci[0], wl), h.eq(ci[1], wh)))
